@@ -29,7 +29,8 @@ REQUIRED = ["contract:CVR.consistent_sampling", "draws_checked", "thresholds_che
             "sizes:one_exhausted", "sizes:random", "sizes:some_zero", "draws_with_a_zero_size_contest_among_positive_ones", "continued_draws_checked",
             "continued_draw_with_some_sizes_lowered_and_some_raised", "data_prefix_checked_with_cvrs_as_mvrs:ONEAUDIT",
             "data_prefix_checked_with_cvrs_as_mvrs:CARD_COMPARISON", "vote_independence_checked:cards_sharing_identifiers", "draws_with_phantoms_selected", "cards_listing_no_contest_present", "polling_order_checked", "mismatched_sample_refused", "second_draw_same_contest_objects", "draw_after_sample_numbers_reassigned",
-            "two_styles_whose_joined_identifiers_read_the_same"]
+            "two_styles_whose_joined_identifiers_read_the_same",
+            "draws_with_a_contest_object_whose_own_style_flag_is_off"]
 ASSUMPTIONS = ["distinct sample numbers; n_c <= number of cards listing c; dict keys equal contest ids; thresholds for "
                "n_c = 0 are unconstrained"]
 N_CASES = {"quick": 19200, "thorough": 200000}
@@ -161,6 +162,14 @@ def run_case(es, rec):
     if any(v == 0 for v in sizes.values()) and any(v > 0 for v in sizes.values()):
         rec.count("draws_with_a_zero_size_contest_among_positive_ones")
     sim.set_sizes(sizes)
+    flag_off = set()
+    if len(sim.contests) >= 2 and es.get("_sizes_seed", 0) % 10 == 3:
+        # one Contest object's own use_style attribute says False (built from a dict that said so, or by another tool) while
+        # the draw is the style-based one: which cards count towards a contest is decided by what the cards list
+        cid0 = sorted(sim.contests)[0]
+        sim.contests[cid0].use_style = False
+        flag_off.add(cid0)
+        rec.count("draws_with_a_contest_object_whose_own_style_flag_is_off")
     styles = [set(c.votes.keys()) for c in sim.cvr_list]
     if any(not s for s in styles):
         rec.count("cards_listing_no_contest_present")
@@ -185,7 +194,7 @@ def run_case(es, rec):
     pos_of = {id(cv): k for k, cv in enumerate(c)}
     with np.errstate(all="ignore"):
         for cid, con in sim.contests.items():
-            if sizes[cid] < 1:
+            if sizes[cid] < 1 or cid in flag_off:   # (the data route selects by the Contest object's flag: C06's clause)
                 continue
             ref_cards = per[cid]
             for name, asn in con.assertions.items():
